@@ -100,8 +100,21 @@ class WorkingHours:
         for day_num in day_nums:
             if day_num not in self._hours:
                 self._hours[day_num] = []
-            # Extend with new intervals (allows multiple non-contiguous ranges per day)
-            self._hours[day_num].extend(time_intervals)
+            for start, end in time_intervals:
+                if end > start:
+                    # Extend with new intervals (allows multiple non-contiguous ranges per day)
+                    self._hours[day_num].append((start, end))
+                    continue
+                # The interval crosses midnight (e.g. mon 22:00 - 06:00): it belongs to the day
+                # it starts on, so store the evening part on that day and the morning part on
+                # the following day. Stored whole, the morning hours were also worked on the
+                # listed day itself and were lost when the following day had no hours.
+                self._hours[day_num].append((start, (24, 0)))
+                if end != (0, 0):
+                    next_day = (day_num + 1) % 7
+                    if next_day not in self._hours:
+                        self._hours[next_day] = []
+                    self._hours[next_day].append(((0, 0), end))
 
     def _parse_time(self, time_str: str) -> tuple[int, int]:
         """Parse a time string like '08:15' to (hour, minute) tuple."""
